@@ -4,6 +4,7 @@
 
 mod auth;
 mod authp;
+mod aux;
 mod cipher;
 mod conn;
 mod util;
@@ -24,6 +25,11 @@ fn main() {
         "pubkey" => auth::run_pubkey(&args),
         "clientgroups" => auth::run_clientgroups(&args),
         "adversary" => auth::run_adversary(&args),
+        "norm" => aux::run_norm(&args),
+        "pin" => aux::run_pin(&args),
+        "integrity" => aux::run_integrity(&args),
+        "matrix" => aux::run_matrix(&args),
+        "rng" => aux::run_rng(&args),
         "world" => cipher::run_world(&args),
         "stream" => cipher::run_stream(&args),
         "sweep" => cipher::run_sweep(&args),
